@@ -205,6 +205,8 @@ def run(ctx):
     dev = vlib.read_ndjson(tp)
     ctx.notes["runs_with_data_drops"] = len(dev)
     for v in dviols:
+        if not v["predicate"].startswith("C08_"):
+            continue
         e = dev[v["line"] - 1]
         vlib.report_violation(ctx, {"predicate": v["predicate"], "event": "EMDrop", "where": (e["panic"] or "").split(":")[0]},
                               {"emdrop": {k: e[k] for k in ("npre", "nsamp", "mode", "zero", "drops", "panic")}})
